@@ -273,6 +273,8 @@ class Path:
         if isinstance(v, SObj):
             return self.obj_truth(v)
         if isinstance(v, SMap):
+            if v.keys_seq is not None and not v.writes:
+                return self.truth(v.keys_seq)
             raise Unsupported("truth of symbolic map")
         from . import models as _m
         if isinstance(v, _m.SymSet):
@@ -1331,7 +1333,18 @@ class Path:
             elif n in kwargs:
                 o.fields[n] = kwargs.pop(n)
             elif dflt is not None:
-                o.fields[n] = self.eval_in_module(mi, dflt)
+                if isinstance(dflt, ast.Call) and isinstance(dflt.func, ast.Name) and dflt.func.id == "field":
+                    kw = {k.arg: k.value for k in dflt.keywords}
+                    if "default_factory" in kw:
+                        fac = self.eval_in_module(mi, kw["default_factory"])
+                        v = self.call(fac, [], {})
+                        o.fields[n] = v    # a fresh container per instance
+                    elif "default" in kw:
+                        o.fields[n] = self.eval_in_module(mi, kw["default"])
+                    else:
+                        raise PyExc(self.mk_exc("TypeError", f"missing {n}"))
+                else:
+                    o.fields[n] = self.eval_in_module(mi, dflt)
             else:
                 raise PyExc(self.mk_exc("TypeError", f"missing {n}"))
 
